@@ -220,7 +220,7 @@ const REGRESSIONS: [&str; 7] = [
 ];
 
 pub fn def(tier: Tier) -> CheckDef {
-    let rounds = tier.pick(6, 100);
+    let rounds = tier.pick(10, 150);
     let max_size = tier.pick(5, 6);
     let budget = crate::checks::c02::step_budget(tier);
     CheckDef {
@@ -233,6 +233,7 @@ pub fn def(tier: Tier) -> CheckDef {
         ],
         idle_limit_s: 180,
         needs_cli: false,
+        fuzz: None,
         parts: vec![
             Part {
                 name: "regressions",
@@ -272,7 +273,7 @@ pub fn def(tier: Tier) -> CheckDef {
                 run: Box::new(|ctx, r| ctx.prop("generated", r, 400, 600, generated_case)),
                 replay: Some(Box::new(|ctx, inp| match inp {
                     ReplayInput::Choices(c) => generated_case(ctx, &mut Ch::new(c)),
-                    ReplayInput::Text(_) => Err(Failure::new("this part replays from choices", "")),
+                    _ => Err(Failure::new("this part replays from choices", "")),
                 })),
             },
             Part {
@@ -281,7 +282,7 @@ pub fn def(tier: Tier) -> CheckDef {
                 run: Box::new(|ctx, r| ctx.prop("risky-order", r, 400, 300, risky_case)),
                 replay: Some(Box::new(|ctx, inp| match inp {
                     ReplayInput::Choices(c) => risky_case(ctx, &mut Ch::new(c)),
-                    ReplayInput::Text(_) => Err(Failure::new("this part replays from choices", "")),
+                    _ => Err(Failure::new("this part replays from choices", "")),
                 })),
             },
             Part {
